@@ -24,6 +24,7 @@ State representation (chosen so that everything is structural recursion over lis
             `oldestOrphan` pointer (which can be stale); bound `maxOrphans`; wall-clock expiry (1 h) is
             not modelled. `evicted` remembers hashes dropped by the bound (ghost, for the theorems).
 * `notes` — NTBlockConnected / NTBlockDisconnected notifications, newest first.
+* `bestHdr` — tip of the best-header view (`bestHeader` chainView): moved only by ProcessBlockHeader.
 -/
 import BV.C02.Spec
 namespace BV.C02
@@ -63,6 +64,7 @@ structure State where
   clock : Nat
   evicted : List Hash
   notes : List Note
+  bestHdr : Hash := 0
 deriving Repr, Inhabited
 
 def genesisBlk : BlockAbs := ⟨0, 0, 0, true, true, true, true⟩
@@ -248,8 +250,9 @@ def processBlock (s : State) (b : BlockAbs) : State × Res :=
         | (s2, true) => (s2, .rej)
         | (s2, false) => (s2, if m then .main else .side)
 
-/-- `ProcessBlockHeader` (the best-header view is not modelled; the result is ok/rejected) -/
-def processHeader (s : State) (b : BlockAbs) : State × Res :=
+/-- index effect of `maybeAcceptBlockHeader`: rejected, or accepted (a header-only node is added when
+the hash is new) -/
+def processHeaderCore (s : State) (b : BlockAbs) : State × Res :=
   match lookup s.idx b.parent with
   | none => (s, .rej)
   | some p =>
@@ -270,6 +273,44 @@ def ancestors : List Node → Hash → List Hash
   | n :: rest, h =>
     if n.blk.hash == h then (if h == 0 then [] else n.blk.parent :: ancestors rest n.blk.parent)
     else ancestors rest h
+
+/-- `bestHeader.Contains(node)` -/
+def hdrContains (s : State) (h : Hash) : Bool := h == s.bestHdr || (ancestors s.idx s.bestHdr).contains h
+
+/-- `IsValidHeader`: on the best-header chain and not known invalid -/
+def isValidHeader (s : State) (h : Hash) : Bool := hdrContains s h && !(s.status h).knownInvalid
+
+/-- best-header part of `maybeAcceptBlockHeader` for an accepted header: already on the best-header
+chain ⇒ main; extends its tip ⇒ new tip; more cumulative work than its tip ⇒ new tip; else side -/
+def updateBestHdr (s : State) (b : BlockAbs) : State × Res :=
+  if hdrContains s b.hash then (s, .main)
+  else if b.parent == s.bestHdr then ({ s with bestHdr := b.hash }, .main)
+  else if s.wsum b.hash ≤ s.wsum s.bestHdr then (s, .side)
+  else ({ s with bestHdr := b.hash }, .main)
+
+/-- `ProcessBlockHeader` -/
+def processHeader (s : State) (b : BlockAbs) : State × Res :=
+  match processHeaderCore s b with
+  | (s1, .rej) => (s1, .rej)
+  | (s1, _) => updateBestHdr s1 b
+
+/-- clean shutdown and restart on the same database (`initChainState`): only nodes whose data is
+stored are persisted, the orphan pool is gone, the best-header view restarts at the active tip.
+Not an `Op` of the proved histories: used by the driver for the restart correspondence. -/
+def restart (s : State) : State :=
+  { s with idx := s.idx.filter (fun n => (s.status n.blk.hash).data),
+           orphans := [], oldest := none, bestHdr := s.tip }
+
+/-- `GetOrphanRoot` -/
+def orphanRoot (orphans : List (BlockAbs × Nat)) : Nat → Hash → Hash
+  | 0, h => h
+  | f + 1, h =>
+    match orphans.find? (fun p => p.1.hash == h) with
+    | none => h
+    | some p =>
+      match orphans.find? (fun q => q.1.hash == p.1.parent) with
+      | none => h
+      | some _ => orphanRoot orphans f p.1.parent
 
 /-- `InactiveTips`: indexed nodes off the best chain that are not the parent of another such node
 (index order, newest first) -/
@@ -361,6 +402,61 @@ def reconsider (s : State) (h : Hash) (choice : Option Hash) : State × Bool :=
         | (s1, detach, attach) =>
           match reorganize s1 detach attach with
           | (s2, _) => (s2, true)   -- a verification error means "reconsidered and found invalid": nil
+
+/-! ### BFFastAdd (checkpointed sync: "several checks can be avoided")
+
+`ProcessBlock(block, BFFastAdd)`: the header/block context checks are skipped, and a block that extends
+the tip is connected without `checkConnectBlock`; the flag is passed on to the orphans drained by the
+call. A reorganisation still verifies its attach list. These are by-design unchecked paths, so they
+are NOT ops of the proved histories (Spec.Op); the driver uses them for the correspondence run. -/
+
+def connectBestFast (s : State) (n : Node) : State × Option Bool :=
+  let h := n.blk.hash
+  if n.blk.parent == s.tip then
+    (connect (s.markValid h) h, some true)
+  else connectBest s n
+
+def maybeAcceptFast (s : State) (b : BlockAbs) : State × Option Bool :=
+  match lookup s.idx b.parent with
+  | none => (s, none)
+  | some p =>
+    if (s.status b.parent).knownInvalid then (s, none)
+    else
+      match lookup s.idx b.hash with
+      | some n => connectBestFast (s.markData b.hash) n
+      | none =>
+        let n : Node := ⟨b, p.height + 1, p.workSum + b.work⟩
+        connectBestFast { s with idx := n :: s.idx, st := (b.hash, { data := true, header := true }) :: s.st } n
+
+def acceptKidsFast : State → List BlockAbs → List Hash → Bool → State × List Hash × Bool
+  | s, [], acc, e => (s, acc, e)
+  | s, k :: ks, acc, e =>
+    match maybeAcceptFast s k with
+    | (s1, none) => acceptKidsFast s1 ks acc true
+    | (s1, some _) => acceptKidsFast s1 ks (acc ++ [k.hash]) e
+
+def drainFast : Nat → State → List Hash → Bool → State × Bool
+  | 0, s, _, e => (s, e)
+  | _ + 1, s, [], e => (s, e)
+  | f + 1, s, h :: q, e =>
+    let kids := (s.orphans.filter (fun p => p.1.parent == h)).map (·.1)
+    let s0 : State := { s with orphans := s.orphans.filter (fun p => !(p.1.parent == h)) }
+    match acceptKidsFast s0 kids [] e with
+    | (s1, acc, e1) => drainFast f s1 (q ++ acc) e1
+
+def processBlockFast (s : State) (b : BlockAbs) : State × Res :=
+  if (s.status b.hash).data then (s, .dup)
+  else if s.orphans.any (fun p => p.1.hash == b.hash) then (s, .dup)
+  else if !b.sane then (s, .rej)
+  else
+    if !(s.status b.parent).data then (addOrphan s b, .orphan)
+    else
+      match maybeAcceptFast s b with
+      | (s1, none) => (s1, .rej)
+      | (s1, some m) =>
+        match drainFast (s1.orphans.length + 1) s1 [b.hash] false with
+        | (s2, true) => (s2, .rej)
+        | (s2, false) => (s2, if m then .main else .side)
 
 /-! ### the machine -/
 
